@@ -18,7 +18,9 @@ META = {
             'under depth {0,1,2,5,20} x multiple {0,100,250,500,4000} x fragment {False,True} (quick: a seeded subset) against the real TCP simulator, with the tag state reset in-process '
             'between settings. Every setting must yield exactly one result per operation, in order, with statuses and values equal across settings and equal to the array model. Every bundle '
             'sent is inspected: all member operations must share the route and send path the bundle was sent with. Operation strings in every documented form (tag or @class/instance/attribute, '
-            '[i], [i-j], *n, +offset, =(TYPE)v,v) are printed from structures and must parse to exactly those structures; format_path output must parse back to the same segments.',
+            '[i], [i-j], *n, +offset, =(TYPE)v,v) are printed from structures and must parse to exactly those structures; format_path output must parse back to the same segments. '
+            'get_attribute.proxy.read (built on the same pipeline) is run over attribute lists (tag reads/writes as strings, typed @class/instance/attribute reads) under several (depth, multiple) '
+            'settings: one value per attribute, in order, equal to the model and equal across settings.',
     'note': 'Operations naming unknown tags are excluded (alone they are refused by the encapsulation and end the session, in a bundle they get a CIP status: a documented difference, see C06/C07).',
 }
 LEVEL = META['level']
@@ -27,7 +29,7 @@ RULE = ('a case = one (operation list, setting) execution compared with the refe
 ASSUMPTIONS = ['tag state is reset in-process between settings (the simulator runs in a thread of the checking process)']
 REQUIRED = ['lists', 'settings', 'setting:synchronous', 'setting:pipelined', 'setting:bundled', 'setting:fragment', 'ops:read', 'ops:write', 'ops:failing', 'ops:attribute',
             'bundles:seen', 'bundles:multi-member', 'monitor:paths-in-bundle', 'ops:differing-route-paths', 'strings:parsed', 'strings:write-cast', 'strings:range', 'strings:offset',
-            'strings:numeric-path', 'paths:format-parse', 'monitor:model-compare']
+            'strings:numeric-path', 'paths:format-parse', 'monitor:model-compare', 'proxy:lists']
 TIMEOUT = {'quick': 300, 'thorough': 2400}
 SOFT = {'quick': 40, 'thorough': 900}
 
@@ -340,6 +342,70 @@ def run_list(ctx, sim, rng, nops, settings):
         ctx.sample({'operations': wit['operations'][:6], 'settings_run': len(settings), 'results_first': [repr(x)[:60] for x in (reference or [])[:3]]})
 
 
+def proxy_part(ctx, sim, rng, rounds):
+    """get_attribute.proxy.read is built on the same pipeline: one value per attribute, in order, whatever depth/multiple the proxy uses"""
+    from cpppo.server.enip import client, get_attribute
+    from vlib import arraymodel, gen
+    for _ in range(rounds):
+        if ctx.expired():
+            break
+        n = rng.choice([1, 3, 8, 20])
+        attrs, ops = [], []
+        for _k in range(n):
+            if rng.random() < 0.15:
+                attrs.append(('@0x93/1/2', 'INT'))
+                ops.append({'method': 'get_attribute_single', 'path': [{'class': 0x93}, {'instance': 1}, {'attribute': 2}]})
+            else:
+                kind, spec = gen_spec(rng)
+                attrs.append(print_op(spec))
+                ops.append(list(client.parse_operations([attrs[-1]]))[0])
+        init = {name: gen.typed_values(rng, t, n_) for name, t, n_, a in CFG}
+        model = arraymodel.Model(CFG)
+        for name, t, n_, a in CFG:
+            model.tags[name.lower()].values[:] = list(init[name])
+        expect = []
+        for op, (ws, wv) in zip(ops, model_expect(model, ops)):
+            if op.get('method') == 'get_attribute_single' and wv is not None:
+                raw = bytes(wv)
+                import struct
+                wv = list(struct.unpack('<%dh' % (len(raw) // 2), raw))
+            expect.append(wv)
+        wit = {'proxy_attributes': [a if isinstance(a, str) else list(a) for a in attrs]}
+        reference = None
+        for depth, multiple in [(1, 0)] + rng.sample([(2, 0), (5, 0), (1, 250), (3, 500), (20, 4000), (2, 100)], 3):
+            for name, t, n_, a in CFG:
+                at = sim.attributes()[name]
+                if at.scalar:
+                    at[0] = init[name][0]
+                else:
+                    at[0:n_] = list(init[name])
+            via = get_attribute.proxy(host=sim.address[0], port=sim.address[1], timeout=10, depth=depth, multiple=multiple, identity_default='verif')
+            w = dict(wit, depth=depth, multiple=multiple)
+            try:
+                with via:
+                    got = [normalise(v) for v in via.read(list(attrs))]
+            except Exception as exc:
+                ctx.violation('client-raises-on-healthy-connection', 'proxy depth=%d multiple=%d: %r' % (depth, multiple, exc), w)
+                return
+            finally:
+                via.close_gateway()
+            ctx.count('proxy:reads')
+            ctx.case(('proxy', repr(attrs), depth, multiple), nontrivial=len(attrs) >= 2 and bool(depth > 1 or multiple))
+            if len(got) != len(attrs):
+                ctx.violation('result-count-differs-from-operation-count', 'proxy depth=%d multiple=%d: %d values for %d attributes' % (depth, multiple, len(got), len(attrs)), w)
+                return
+            for k, (g, e) in enumerate(zip(got, expect)):
+                if g != e:
+                    ctx.violation('client-result-differs-from-model', 'proxy depth=%d multiple=%d: attribute %d (%r) -> %r, model %r' % (depth, multiple, k, attrs[k], g if not isinstance(g, list) else g[:6], e if not isinstance(e, list) else e[:6]), w)
+                    return
+            if reference is None:
+                reference = got
+            elif got != reference:
+                ctx.violation('results-depend-on-depth-or-bundling', 'proxy depth=%d multiple=%d differs from the first setting' % (depth, multiple), w)
+                return
+        ctx.count('proxy:lists')
+
+
 def run(ctx):
     from vlib import simdrv, reqgen
     rng = ctx.rng
@@ -356,6 +422,7 @@ def run(ctx):
             nops = rng.choice([1, 3, 8, 20, 40] if quick else [1, 3, 8, 20, 40, 80])
             settings = [(0, 0, False)] + (rng.sample(grid, 7) if quick else grid)
             run_list(ctx, sim, rng, nops, settings)
+        proxy_part(ctx, sim, rng, 4 if quick else 300)
     finally:
         sim.stop()
 
